@@ -207,9 +207,9 @@ Proof.
     destruct Hinv as [Hc Hl]. split; [exact Hc|]. destruct Hl as [HR|[Hl1 Hl2]]; [left; exact HR|right].
     split; [exact Hl1|]. destruct Hok as (Hp & _).
     assert (lp L * J <= lp L * (J + (back_jump st t + 0))) by (apply Z.mul_le_mono_nonneg_l; lia). lia.
-  - replace (R + (0 + (batch + 0))) with (R + batch) by lia. replace (J + (back_jump st t + 0)) with (J + back_jump st t) by lia.
+  - replace (R + (0 + (batch + 0))) with (R + batch) by lia. replace (J + (back_jump st t + (0 + 0))) with (J + back_jump st t) by lia.
     split; [exact Hs|split; [lia|split; [lia|exact I]]].
-  - replace (R + (0 + (batch + 0))) with (R + batch) by lia. replace (J + (back_jump st t + 0)) with (J + back_jump st t) by lia.
+  - replace (R + (0 + (batch + 0))) with (R + batch) by lia. replace (J + (back_jump st t + (0 + 0))) with (J + back_jump st t) by lia.
     destruct Hs as [H1 H2]. split; [exact H1|split; [lia|split; [lia|exact H2]]].
 Qed.
 
@@ -284,14 +284,14 @@ Proof.
   destruct r1 as [| |d1].
   - intro H; inversion H; subst w' e. clear H.
     unfold WI. rewrite !res_sum_app, !back_sum_app, !all_pulled_app.
-    cbn [res_sum back_sum all_pulled fold_right res_n back_n all_len]. rewrite Hall1.
+    cbn [res_sum back_sum all_pulled fold_right res_n back_n all_len]. rewrite Hall1. fold R0 J0.
     replace (R0 + (res_sum id e1 + (0 + 0))) with (R0 + res_sum id e1) by lia.
     replace (J0 + (back_sum id e1 + (0 + 0))) with (J0 + back_sum id e1) by lia.
     split; [destruct id; exact A1|split; [lia|split; [lia|split; [lia|]]]].
     intros T HT. rewrite !pulled_app, Hp1. cbn. specialize (Keep T HT _ HB1). lia.
   - intro H; inversion H; subst w' e. clear H.
     unfold WI. rewrite !res_sum_app, !back_sum_app, !all_pulled_app.
-    cbn [res_sum back_sum all_pulled fold_right res_n back_n all_len]. rewrite Hall1.
+    cbn [res_sum back_sum all_pulled fold_right res_n back_n all_len]. rewrite Hall1. fold R0 J0.
     replace (R0 + (res_sum id e1 + (0 + 0))) with (R0 + res_sum id e1) by lia.
     replace (J0 + (back_sum id e1 + (0 + 0))) with (J0 + back_sum id e1) by lia.
     split; [destruct id; exact A1|split; [lia|split; [lia|split; [lia|]]]].
@@ -333,7 +333,7 @@ Proof.
     destruct r2 as [| |d2].
     + intro H; inversion H; subst w' e. clear H.
       unfold WI. rewrite !res_sum_app, !back_sum_app, !all_pulled_app.
-      cbn [res_sum back_sum all_pulled fold_right res_n back_n all_len]. rewrite Hall1, Hall2.
+      cbn [res_sum back_sum all_pulled fold_right res_n back_n all_len]. rewrite Hall1, Hall2. fold R0 J0.
       replace (R0 + (res_sum id e1 + (res_sum id e2 + (0 + 0)))) with R2 by (unfold R2; lia).
       replace (J0 + (back_sum id e1 + (back_sum id e2 + (0 + 0)))) with J2 by (unfold J2; lia).
       split; [exact A2|split; [unfold R2; lia|split; [unfold J2; lia|split; [unfold R2; lia|]]]].
@@ -341,7 +341,7 @@ Proof.
       replace (J0 + back_sum id e1 + back_sum id e2) with (J0 + (back_sum id e1 + back_sum id e2)) by lia. lia.
     + intro H; inversion H; subst w' e. clear H.
       unfold WI. rewrite !res_sum_app, !back_sum_app, !all_pulled_app.
-      cbn [res_sum back_sum all_pulled fold_right res_n back_n all_len]. rewrite Hall1, Hall2.
+      cbn [res_sum back_sum all_pulled fold_right res_n back_n all_len]. rewrite Hall1, Hall2. fold R0 J0.
       replace (R0 + (res_sum id e1 + (res_sum id e2 + (0 + 0)))) with R2 by (unfold R2; lia).
       replace (J0 + (back_sum id e1 + (back_sum id e2 + (0 + 0)))) with J2 by (unfold J2; lia).
       split; [exact A2|split; [unfold R2; lia|split; [unfold J2; lia|split; [unfold R2; lia|]]]].
@@ -370,10 +370,10 @@ Proof.
       assert (Hsel : all_len (sel id) (EPull c t3 batch bytes) = if concerns id c then Z.of_nat (length bytes) else 0).
       { destruct id; cbn; reflexivity. }
       unfold WI. rewrite !res_sum_app, !back_sum_app, !all_pulled_app.
-      cbn [res_sum back_sum all_pulled fold_right res_n back_n]. rewrite Hall1, Hall2, Hsel.
+      cbn [res_sum back_sum all_pulled fold_right res_n back_n]. rewrite Hall1, Hall2, Hsel. fold R0 J0.
       replace (R0 + (res_sum id e1 + (res_sum id e2 + (0 + 0)))) with R2 by (unfold R2; lia).
       replace (J0 + (back_sum id e1 + (back_sum id e2 + (0 + 0)))) with J2 by (unfold J2; lia).
-      split; [exact A2|split; [unfold R2; lia|split; [unfold J2; lia|split|]]].
+      split; [exact A2|split; [unfold R2; lia|split; [unfold J2; lia|split]]].
       * unfold R2. destruct (concerns id c) eqn:Ec; [specialize (Hres eq_refl)|]; lia.
       * intros T HT. rewrite !pulled_app, Hp1, Hp2. cbn [pulled fold_right].
         pose proof (pull_len_le (sel id) T (EPull c t3 batch bytes)) as Hpl. rewrite Hsel in Hpl.
@@ -694,6 +694,33 @@ Proof.
   intros Hrq Htq Hprov HL Hinf Hops Hclk Hfrom HT.
   destruct (provision_ok cfg h Hrq Htq Hprov) as [Hh _].
   apply (throttle_bound_gen h ss ops Total L t0 T HL Hinf Hh Hops); auto.
+  intros o s rdy Hin Hs Hr _. eapply Hfrom; eauto.
+Qed.
+
+(* the same without any assumption on the order in which reservations reach the limiters *)
+Lemma throttle_bound_conn_any cfg h ss ops c L t0 T :
+  0 < rq cfg -> 0 < trq cfg -> provision cfg = Some h ->
+  hlocal h = Some L -> linf L = false ->
+  Forall op_ok ops -> conn_reads_from h ss c t0 ops -> t0 <= T ->
+  pulled (Some c) T (snd (run h ss ops)) * unit L
+  <= lburst L * unit L + lp L * (T - t0 + 1) + lp L * back_sum (Local c) (snd (run h ss ops)).
+Proof.
+  intros Hrq Htq Hprov HL Hinf Hops Hfrom HT.
+  destruct (provision_ok cfg h Hrq Htq Hprov) as [Hh _].
+  apply (throttle_bound_any h ss ops (Local c) L t0 T HL Hinf Hh Hops); auto.
+  intros o s rdy Hin Hs Hr Hc. cbn in Hc. apply Nat.eqb_eq in Hc. eapply Hfrom; eauto. rewrite <- Hc. exact Hs.
+Qed.
+
+Lemma throttle_bound_total_any cfg h ss ops L t0 T :
+  0 < rq cfg -> 0 < trq cfg -> provision cfg = Some h ->
+  htotal h = Some L -> linf L = false ->
+  Forall op_ok ops -> all_reads_from h ss t0 ops -> t0 <= T ->
+  pulled None T (snd (run h ss ops)) * unit L
+  <= lburst L * unit L + lp L * (T - t0 + 1) + lp L * back_sum Total (snd (run h ss ops)).
+Proof.
+  intros Hrq Htq Hprov HL Hinf Hops Hfrom HT.
+  destruct (provision_ok cfg h Hrq Htq Hprov) as [Hh _].
+  apply (throttle_bound_any h ss ops Total L t0 T HL Hinf Hh Hops); auto.
   intros o s rdy Hin Hs Hr _. eapply Hfrom; eauto.
 Qed.
 
